@@ -183,8 +183,9 @@ class TaintAnalysis:
             if self.run(tb, tp, nchain):
                 res = True
         # direct call of a closure value / Fn trait on a local closure handled through c.target above.
-        from .effects import OWN_PRIMS
-        if n in OWN_PRIMS:
+        from .effects import OWN_PRIMS, READ_PRIMS, is_copy_ty
+        fargs_ = (c.fn.get("args") or []) if c.fn else []
+        if n in OWN_PRIMS and not (n in READ_PRIMS and fargs_ and isinstance(fargs_[0], dict) and is_copy_ty(self.f, fargs_[0])):
             for i, a in enumerate(t["args"]):
                 if args_t[i]:
                     found.append((body.path, c.bb, "ownership primitive %s applied to shared-origin memory (bitwise copy-out / drop of data "
